@@ -1,4 +1,5 @@
 """A.10 — ResetRemove coverage / pruning and serde wire-format well-formedness."""
+import re
 from ..core import rule
 from ..terms import drop_lv
 from .common import *
@@ -369,12 +370,16 @@ def ser_allfields(ctx):
             # Deserialize side
             if a['kind'] == 'struct' and want:
                 rep = set()
+                tail = adt.split('crdts::')[-1]      # e.g. list::List
                 for k, names in missing.items():
-                    if adt.split('::')[-1] in k and adt.split('crdts::')[-1].split('::')[0] in k:
+                    if re.search(r'for %s\b' % re.escape(tail), k):
                         rep |= names
                 lack = sorted(want - rep)
                 if lack and rep:
                     errs.append('Deserialize does not require field(s) %s (they are defaulted when absent)' % lack)
+                elif not rep:
+                    errs.append('Deserialize has no field-by-field visitor for this type: it is rebuilt through a conversion '
+                                '(serde from / try_from) or a hand-written impl, not as the mirror image of Serialize')
         ctx.check(not errs, short, b, 'all fields on the wire', '%s: %s' % (adt, errs[0] if errs else ''), fnkey=adt)
 
 
